@@ -679,7 +679,6 @@ Qed.
 
 (* ---- the composed system: router.limiterAllowN over the limiter built from a configuration ---- *)
 
-Definition rl_conv (d : option bool) : rl_res := match d with Some false => RlClient | _ => RlOk end.
 
 (* results for key k computed on its own bucket only *)
 Fixpoint rl_kres (o : opts) (k : lim_addr) (s : option bucket) (h : list rl_arrival) : list rl_res :=
@@ -864,3 +863,428 @@ Proof.
   - apply (sorted_sorted_from (e :: h) S).
   - split; [exact I|]. split; [exact I|]. reflexivity.
 Qed.
+
+(* ------------------------------------------------------------------ the composed limiter: global bucket + client limiter *)
+
+(* the global bucket decides first and on its own; the client limiter sees only what it lets through *)
+Lemma rl_decompose o : forall h g t,
+  rl_decisions (mkRl g (Some (o, t))) h = rl_decisions_given o t h (glob_verdicts g h).
+Proof.
+  induction h as [|[[now a] n] h IH]; intros g t; [reflexivity|].
+  cbn [rl_decisions glob_verdicts].
+  destruct a as [x|x|]; destruct g as [[lim b]|]; cbn [rl_allow rl_global rl_client fst snd rl_decisions_given];
+    try (rewrite IH; reflexivity);
+    try (destruct (fst (allow_bucket lim lim b now n)); cbn [fst snd]; rewrite IH; reflexivity).
+Qed.
+
+Lemma rl_final_table o : forall h g t,
+  rl_table (rl_final (mkRl g (Some (o, t))) h) = lim_final o t (rl_passed h (glob_verdicts g h)).
+Proof.
+  induction h as [|[[now a] n] h IH]; intros g t; [reflexivity|].
+  cbn [rl_final glob_verdicts rl_passed].
+  destruct a as [x|x|]; destruct g as [[lim b]|]; cbn [rl_allow rl_global rl_client fst snd rl_passed lim_final];
+    try (rewrite IH; reflexivity);
+    try (destruct (fst (allow_bucket lim lim b now n)); cbn [fst snd lim_final]; rewrite IH; reflexivity).
+Qed.
+
+(* a query the global limit refuses leaves every client bucket untouched *)
+Lemma global_refusal_no_client_charge r now a n :
+  snd (rl_allow r now a n) = RlGlobal -> rl_client (fst (rl_allow r now a n)) = rl_client r.
+Proof.
+  unfold rl_allow. destruct a as [x|x|]; [| |discriminate];
+  (destruct (rl_global r) as [[lim b]|]; cbn [fst snd];
+   [destruct (fst (allow_bucket lim lim b now n))|];
+   [destruct (rl_client r) as [[o t]|]; cbn [fst snd]; [destruct (snd (lim_step o t _)) as [[|]|]|]; discriminate
+   |reflexivity
+   |destruct (rl_client r) as [[o t]|]; cbn [fst snd]; [destruct (snd (lim_step o t _)) as [[|]|]|]; discriminate]).
+Qed.
+
+(* ... while the wrong order charges the client first *)
+Lemma mask_none o : mask_addr o LANone = LANone.
+Proof. reflexivity. Qed.
+
+(* the cost granted through the composed limiter is the cost the client limiter grants on the passed arrivals *)
+Lemma rl_granted_passed o k t0 t1 : k <> LANone -> forall h vs t,
+  rl_granted o k t0 t1 h (rl_decisions_given o t h vs) =
+  lim_granted o k t0 t1 (rl_passed h vs) (lim_decisions o t (rl_passed h vs)).
+Proof.
+  intros K. induction h as [|[[now a] n] h IH]; intros vs t; [reflexivity|].
+  destruct vs as [|v vs]; [reflexivity|].
+  assert (addr_eqb LANone k = false) as NK by (apply addr_eqb_neq; congruence).
+  destruct a as [x|x|].
+  - cbn [rl_decisions_given rl_passed]. destruct v.
+    + cbn [rl_granted lim_decisions lim_granted]. rewrite IH.
+      cbn [lim_step snd fst]. destruct (fst (allow_bucket _ _ _ _ _)); reflexivity.
+    + cbn [rl_granted]. rewrite IH. reflexivity.
+  - cbn [rl_decisions_given rl_passed]. destruct v.
+    + cbn [rl_granted lim_decisions lim_granted]. rewrite IH.
+      cbn [lim_step snd fst]. destruct (fst (allow_bucket _ _ _ _ _)); reflexivity.
+    + cbn [rl_granted]. rewrite IH. reflexivity.
+  - cbn [rl_decisions_given rl_passed rl_granted]. rewrite IH, mask_none, NK. reflexivity.
+Qed.
+
+Lemma sorted_from_weaken h : forall tau tau', tau' <= tau -> lim_sorted_from tau h = true -> lim_sorted_from tau' h = true.
+Proof. destruct h as [|e h]; intros tau tau' L H; [reflexivity|]. cbn in *. apply andb_true_iff in H. destruct H as [A B]. rewrite B. lia. Qed.
+
+Lemma passed_sorted_from : forall h vs tau,
+  lim_sorted_from tau (rl_events h) = true -> lim_sorted_from tau (rl_passed h vs) = true.
+Proof.
+  induction h as [|[[now a] n] h IH]; intros vs tau S; [reflexivity|].
+  destruct vs as [|v vs]; [reflexivity|].
+  cbn in S. apply andb_true_iff in S. destruct S as [S1 S2].
+  assert (lim_sorted_from tau (rl_passed h vs) = true) as W.
+  { apply (sorted_from_weaken _ now); [lia|]. now apply IH. }
+  destruct a as [x|x|]; cbn [rl_passed]; try exact W;
+    (destruct v; [|exact W]); cbn; rewrite S1; cbn; now apply IH.
+Qed.
+
+Lemma sorted_from_sorted h tau : lim_sorted_from tau h = true -> lim_sorted h = true.
+Proof. destruct h as [|e h]; [reflexivity|]. cbn. intros H. apply andb_true_iff in H. apply H. Qed.
+
+Lemma passed_sorted h vs : lim_sorted (rl_events h) = true -> lim_sorted (rl_passed h vs) = true.
+Proof.
+  intros S. destruct h as [|e h]; [reflexivity|].
+  apply (sorted_from_sorted _ (ev_time (EvAllow (fst (fst e)) (snd (fst e)) (snd e)))).
+  apply passed_sorted_from. exact (sorted_sorted_from _ S).
+Qed.
+
+Lemma rl_of_config_shape c t0 : 0 < lc_limit c ->
+  rl_of_config c t0 = mkRl (rl_global (rl_of_config c t0)) (Some (set_default (cfg_opts c), [])).
+Proof.
+  intros L. unfold rl_of_config, rl_init, init_client, cfg_opts. cbn [o_limit rl_global].
+  assert (0 <? lc_limit c = true) as -> by lia. reflexivity.
+Qed.
+
+(* window bound for the cost GRANTED through the composed limiter (global limit on or off) *)
+Lemma composed_bound c k t0 t1 now0 h : 0 < lc_limit c -> k <> LANone ->
+  lim_sorted (rl_events h) = true -> t0 <= t1 ->
+  let o := set_default (cfg_opts c) in
+  rl_granted o k t0 t1 h (rl_decisions (rl_of_config c now0) h) * SCALE
+    <= o_burst o * SCALE + o_limit o * (t1 - t0) + (o_limit o - 1).
+Proof.
+  intros L K S T o. rewrite (rl_of_config_shape c now0 L), rl_decompose. fold o.
+  rewrite rl_granted_passed by exact K.
+  pose proof (default_wf (cfg_opts c)) as W. cbn zeta in W. fold o in W.
+  apply bound_general; try lia. now apply passed_sorted.
+Qed.
+
+(* ---- isolation modulo the global limit ---- *)
+
+(* results for key k computed on its own bucket, the global answers given *)
+Fixpoint rl_kres_g (o : opts) (k : lim_addr) (s : option bucket) (h : list rl_arrival) (vs : list bool) : list rl_res :=
+  match h, vs with
+  | (now, a, n) :: h', v :: vs' =>
+      if addr_eqb (mask_addr o a) k then
+        match a with
+        | LANone => RlOk :: rl_kres_g o k s h' vs'
+        | _ => if v then rl_conv (snd (kstep o k s (EvAllow now a n)))
+                           :: rl_kres_g o k (fst (kstep o k s (EvAllow now a n))) h' vs'
+               else RlGlobal :: rl_kres_g o k s h' vs'
+        end
+      else rl_kres_g o k s h' vs'
+  | _, _ => []
+  end.
+
+Lemma given_results_kres c o k : (forall a, mask_addr o a = cfg_subnet c a) ->
+  forall h vs t, nodup_keys t ->
+  rl_results_for c k h (rl_decisions_given o t h vs) = rl_kres_g o k (lim_lookup k t) h vs.
+Proof.
+  intros M. induction h as [|[[now a] n] h IH]; intros vs t H; [reflexivity|].
+  destruct vs as [|v vs]; [reflexivity|].
+  destruct a as [x|x|].
+  - destruct v; cbn [rl_decisions_given rl_kres_g rl_results_for]; rewrite <- M.
+    + rewrite (IH _ _ (step_nodup o t _ H)), (step_lookup o k t _ H).
+      destruct (addr_eqb (mask_addr o (LA4 x)) k) eqn:E.
+      * rewrite (step_decision o k t (EvAllow now (LA4 x) n)) by exact E. reflexivity.
+      * rewrite (kstep_untouched o k _ (EvAllow now (LA4 x) n)) by exact E. reflexivity.
+    + rewrite (IH _ _ H). reflexivity.
+  - destruct v; cbn [rl_decisions_given rl_kres_g rl_results_for]; rewrite <- M.
+    + rewrite (IH _ _ (step_nodup o t _ H)), (step_lookup o k t _ H).
+      destruct (addr_eqb (mask_addr o (LA6 x)) k) eqn:E.
+      * rewrite (step_decision o k t (EvAllow now (LA6 x) n)) by exact E. reflexivity.
+      * rewrite (kstep_untouched o k _ (EvAllow now (LA6 x) n)) by exact E. reflexivity.
+    + rewrite (IH _ _ H). reflexivity.
+  - cbn [rl_decisions_given rl_kres_g rl_results_for]. rewrite <- M, (IH _ _ H). reflexivity.
+Qed.
+
+Lemma kres_g_nil o k s h : rl_kres_g o k s h [] = [].
+Proof. destruct h as [|[[? ?] ?] ?]; reflexivity. Qed.
+
+Lemma kres_g_filter c o k : (forall a, mask_addr o a = cfg_subnet c a) -> forall h vs s,
+  rl_kres_g o k s h vs = rl_kres_g o k s (filter (rl_from_subnet c k) h) (rl_verdicts_for c k h vs).
+Proof.
+  intros M. induction h as [|[[now a] n] h IH]; intros vs s.
+  - destruct vs; reflexivity.
+  - destruct vs as [|v vs].
+    + cbn [rl_verdicts_for]. now rewrite !kres_g_nil.
+    + cbn [filter rl_verdicts_for rl_kres_g]. unfold rl_from_subnet at 1. cbn [fst snd]. rewrite <- M.
+      destruct (addr_eqb (mask_addr o a) k) eqn:E.
+      * cbn [rl_kres_g]. rewrite E. destruct a; [destruct v| destruct v|]; rewrite <- !IH; reflexivity.
+      * apply IH.
+Qed.
+
+(* the results of subnet k in the full system = its results in the system where ONLY k's arrivals exist and the global
+   check answers what the shared global bucket answered them *)
+Lemma global_isolation c k t0 h : 0 < lc_limit c ->
+  rl_results_for c k h (rl_decisions (rl_of_config c t0) h) =
+  rl_results_for c k (filter (rl_from_subnet c k) h)
+    (rl_decisions_given (set_default (cfg_opts c)) [] (filter (rl_from_subnet c k) h)
+       (rl_verdicts_for c k h (glob_verdicts (rl_global (rl_of_config c t0)) h))).
+Proof.
+  intros L. rewrite (rl_of_config_shape c t0 L) at 1. rewrite rl_decompose.
+  assert (forall a, mask_addr (set_default (cfg_opts c)) a = cfg_subnet c a) as M.
+  { intros a. apply config_client_mask. unfold cfg_client, init_client, cfg_opts. cbn [o_limit].
+    assert (0 <? lc_limit c = true) as -> by lia. reflexivity. }
+  rewrite !(given_results_kres c _ k M) by apply nodup_nil.
+  apply (kres_g_filter c _ k M).
+Qed.
+
+(* the client bucket of subnet k evolves exactly as if only k's globally passed arrivals existed *)
+Lemma fold_kstep_filter o k h : forall s,
+  fold_left (fun s e => fst (kstep o k s e)) h s = fold_left (fun s e => fst (kstep o k s e)) (filter (touches o k) h) s.
+Proof.
+  induction h as [|e h IH]; intros s; [reflexivity|]. cbn [filter fold_left].
+  destruct (touches o k e) eqn:T; cbn [fold_left]; [apply IH|].
+  rewrite (kstep_untouched o k s e T). apply IH.
+Qed.
+
+Lemma client_bucket_own c k t0 h : 0 < lc_limit c ->
+  let o := set_default (cfg_opts c) in
+  lim_lookup k (rl_table (rl_final (rl_of_config c t0) h)) =
+  lim_lookup k (lim_final o [] (filter (touches o k) (rl_passed h (glob_verdicts (rl_global (rl_of_config c t0)) h)))).
+Proof.
+  intros L o. rewrite (rl_of_config_shape c t0 L) at 1. fold o. rewrite rl_final_table.
+  rewrite !final_lookup by apply nodup_nil. apply fold_kstep_filter.
+Qed.
+
+(* ---- a client refusal means the subnet's OWN budget is exhausted ---- *)
+
+Lemma last_cons_default (l : list Z) : forall x d, last (x :: l) d = last l x.
+Proof.
+  induction l as [|y l IH]; intros x d; [reflexivity|].
+  change (last (x :: y :: l) d) with (last (y :: l) d). rewrite (IH y d), (IH y x). reflexivity.
+Qed.
+
+Section OwnBudget.
+  Variable o : opts.
+  Variable k : lim_addr.
+  Hypothesis Hrate : 0 < o_limit o.
+  Hypothesis Hburst : 0 <= o_burst o.
+
+  Definition ev_cost_nonneg (e : lev) : Prop := match e with EvAllow _ _ n => 0 <= n | EvGc _ => True end.
+
+  Lemma capb_nondecr b tau tau' : tau <= tau' -> capb o b tau <= capb o b tau'.
+  Proof.
+    intros H. unfold capb.
+    assert (o_limit o * (tau - b_last b) <= o_limit o * (tau' - b_last b)) by (apply Z.mul_le_mono_nonneg_l; lia). lia.
+  Qed.
+
+  Lemma cap_nondecr s tau tau' : tau <= tau' -> cap o s tau <= cap o s tau'.
+  Proof. destruct s; cbn [cap]; [apply capb_nondecr|lia]. Qed.
+
+  (* the bucket of k holds at least burst minus everything ever granted to k (gc-free histories) *)
+  Lemma own_budget_inv h : forall s tau G,
+    lim_sorted_from tau h = true -> has_gc h = false -> Forall ev_cost_nonneg h ->
+    wf o s tau -> 0 <= G -> o_burst o * SCALE - G * SCALE <= cap o s tau ->
+    forall t0 t1, (forall e, In e h -> t0 <= ev_time e <= t1) ->
+    let s' := fold_left (fun s e => fst (kstep o k s e)) h s in
+    let tau' := last (map ev_time h) tau in
+    wf o s' tau' /\ o_burst o * SCALE - (G + kadm o k t0 t1 s h) * SCALE <= cap o s' tau' /\ 0 <= G + kadm o k t0 t1 s h /\ tau <= tau'.
+  Proof.
+    induction h as [|e h IH]; intros s tau G S NG F W G0 C t0 t1 IN.
+    - cbn. repeat split; try assumption; lia.
+    - cbn in S. apply andb_true_iff in S. destruct S as [S1 S2]. apply Z.leb_le in S1.
+      inversion F as [|? ? F1 F2]; subst.
+      assert (has_gc h = false /\ is_gc e = false) as [NG2 NG1].
+      { unfold has_gc in *. cbn [existsb] in NG. apply orb_false_iff in NG. destruct NG as [A B]. split; [exact B|].
+        destruct e; [reflexivity|discriminate]. }
+      destruct (kstep_cap o k Hrate Hburst s e tau W S1) as [W1 C1].
+      assert (t0 <= ev_time e <= t1) as INe by (apply IN; left; reflexivity).
+      assert (gain o k s e >= 0) as GN.
+      { unfold gain. destruct e as [now a n|now]; [|lia]. cbn in F1. destruct (snd _) as [[|]|]; lia. }
+      pose proof (cap_nondecr s tau (ev_time e) S1) as MON.
+      assert (o_burst o * SCALE - (G + gain o k s e) * SCALE <= cap o (fst (kstep o k s e)) (ev_time e)) as C2.
+      { (* either the step granted (the bucket paid) or the state is the old one at a later time *)
+        destruct e as [now a n|now]; [|discriminate].
+        unfold gain in *. cbn [kstep ev_time] in *.
+        destruct (addr_eqb (mask_addr o a) k) eqn:E; cbn [fst snd] in *.
+        - set (b0 := match s with Some b => b | None => lim_fresh (o_burst o) now end) in *.
+          assert (b_last b0 <= b_seen b0 /\ b_seen b0 <= now /\ - o_limit o < b_tok b0 /\ capb o b0 now = cap o s now) as (P1 & P2 & P3 & P4).
+          { destruct s as [b|]; subst b0; cbn [cap].
+            - destruct W as (A & B & D). repeat split; try lia.
+            - unfold capb, lim_fresh. cbn [b_last b_seen b_tok].
+              assert (o_limit o * (now - now) = 0) by lia. unfold SCALE in *. repeat split; try lia. }
+          unfold allow_bucket, lim_margin, lim_advance in *.
+          assert (now <? b_last b0 = false) as Q by lia. rewrite Q in *.
+          fold (capb o b0 now) in *.
+          destruct ((n <=? o_burst o) && (0 <? capb o b0 now - n * SCALE + o_limit o)) eqn:D; cbn [fst snd cap] in *.
+          + unfold capb at 1. cbn [b_tok b_last]. cbn in F1.
+            assert (o_limit o * (now - now) = 0) by lia. cbv zeta. unfold SCALE in *. lia.
+          + unfold capb at 1. cbv zeta. cbn [b_tok b_last]. fold (capb o b0 now). lia.
+        - lia. }
+      specialize (IH (fst (kstep o k s e)) (ev_time e) (G + gain o k s e) S2 NG2 F2 W1 ltac:(lia) C2 t0 t1
+                    (fun e' H' => IN e' (or_intror H'))).
+      cbn zeta in IH. destruct IH as (I1 & I2 & I3 & I4).
+      cbn [fold_left map kadm]. rewrite (gainw_in o k t0 t1 s e) by lia.
+      rewrite last_cons_default.
+      replace (G + (gain o k s e + kadm o k t0 t1 (fst (kstep o k s e)) h)) with (G + gain o k s e + kadm o k t0 t1 (fst (kstep o k s e)) h) by lia.
+      repeat split; try assumption. lia.
+  Qed.
+End OwnBudget.
+
+(* ---- the property's clause: a client refusal means the subnet's own budget is used up ---- *)
+
+Lemma last_in_cons (l : list Z) : forall x d, In (last (x :: l) d) (x :: l).
+Proof.
+  induction l as [|y l IH]; intros x d; [left; reflexivity|].
+  change (last (x :: y :: l) d) with (last (y :: l) d). right. apply IH.
+Qed.
+
+Lemma last_in_or_default (l : list Z) d : last l d = d \/ In (last l d) l.
+Proof. destruct l as [|x l]; [left; reflexivity|right; apply last_in_cons]. Qed.
+
+Lemma sorted_from_lower l tlow : lim_sorted l = true -> (forall e, In e l -> tlow <= ev_time e) ->
+  lim_sorted_from tlow l = true.
+Proof.
+  intros S L. destruct l as [|e l]; [reflexivity|].
+  pose proof (sorted_sorted_from (e :: l) S) as S'. cbn in S'. cbn.
+  apply andb_true_iff in S'. destruct S' as [_ S2]. rewrite S2.
+  assert (tlow <= ev_time e) by (apply L; left; reflexivity). lia.
+Qed.
+
+Lemma passed_in h : forall vs e, In e (rl_passed h vs) ->
+  exists now a n, e = EvAllow now a n /\ In (now, a, n) h.
+Proof.
+  induction h as [|[[now a] n] h IH]; intros vs e I; [destruct vs; contradiction|].
+  destruct vs as [|v vs]; [contradiction|].
+  assert (In e (rl_passed h vs) -> exists now0 a0 n0, e = EvAllow now0 a0 n0 /\ In (now0, a0, n0) ((now, a, n) :: h)) as R.
+  { intros I'. destruct (IH _ _ I') as (x & y & z & E & J). exists x, y, z. split; [exact E|right; exact J]. }
+  destruct a as [x|x|]; cbn [rl_passed] in I.
+  - destruct v; [|apply R; exact I]. destruct I as [<-|I]; [|apply R; exact I].
+    eexists _, _, _; split; [reflexivity|left; reflexivity].
+  - destruct v; [|apply R; exact I]. destruct I as [<-|I]; [|apply R; exact I].
+    eexists _, _, _; split; [reflexivity|left; reflexivity].
+  - apply R; exact I.
+Qed.
+
+Lemma passed_no_gc h : forall vs, has_gc (rl_passed h vs) = false.
+Proof.
+  induction h as [|[[now a] n] h IH]; intros vs; [destruct vs; reflexivity|].
+  destruct vs as [|v vs]; [reflexivity|].
+  destruct a; cbn [rl_passed]; try apply IH; destruct v; try apply IH; unfold has_gc; cbn [existsb orb]; apply IH.
+Qed.
+
+Lemma rl_final_client o : forall h g t,
+  rl_client (rl_final (mkRl g (Some (o, t))) h) = Some (o, lim_final o t (rl_passed h (glob_verdicts g h))).
+Proof.
+  induction h as [|[[now a] n] h IH]; intros g t; [reflexivity|].
+  cbn [rl_final glob_verdicts rl_passed].
+  destruct a as [x|x|]; destruct g as [[lim b]|]; cbn [rl_allow rl_global rl_client fst snd rl_passed lim_final];
+    try (rewrite IH; reflexivity);
+    try (destruct (fst (allow_bucket lim lim b now n)); cbn [fst snd lim_final]; rewrite IH; reflexivity).
+Qed.
+
+Lemma cfg_subnet_valid c a : a <> LANone -> cfg_subnet c a <> LANone.
+Proof.
+  intros H. unfold cfg_subnet. destruct a as [x|x|]; [discriminate| |contradiction].
+  cbn [lim_unmap]. destruct (N.shiftr x 32 =? 65535)%N; discriminate.
+Qed.
+
+(* the client limiter alone: after a sorted, collector-free history of non-negative costs, an arrival of subnet k that
+   is refused exceeds what k's own budget (burst minus everything ever granted to k) holds *)
+Lemma own_budget_refusal o k h now a n tlow :
+  0 < o_limit o -> 0 <= o_burst o ->
+  lim_sorted h = true -> has_gc h = false -> Forall ev_cost_nonneg h ->
+  (forall e, In e h -> tlow <= ev_time e <= now) -> tlow <= now -> 0 <= n ->
+  mask_addr o a = k ->
+  snd (lim_step o (lim_final o [] h) (EvAllow now a n)) = Some false ->
+  o_burst o < lim_granted o k tlow now h (lim_decisions o [] h) + n.
+Proof.
+  intros R B S NG F IN TL N K D.
+  rewrite granted_kadm by apply nodup_nil. cbn [lim_lookup].
+  assert (lim_sorted_from tlow h = true) as SF by (apply sorted_from_lower; [exact S|intros e I; apply IN; exact I]).
+  assert (wf o None tlow) as W0 by exact I.
+  assert (o_burst o * SCALE - 0 * SCALE <= cap o None tlow) as C0 by (cbn [cap]; lia).
+  destruct (own_budget_inv o k R B h None tlow 0 SF NG F W0 (Z.le_refl 0) C0 tlow now IN) as (W & C & G0 & T).
+  set (s' := fold_left (fun s e => fst (kstep o k s e)) h None) in *.
+  set (tau' := last (map ev_time h) tlow) in *.
+  assert (tau' <= now) as TN.
+  { subst tau'. destruct (last_in_or_default (map ev_time h) tlow) as [E|I0]; [rewrite E; exact TL|].
+    apply in_map_iff in I0. destruct I0 as (e & E & I0). rewrite <- E. apply IN. exact I0. }
+  pose proof (wf_mono o s' tau' now W TN) as Wn.
+  pose proof (cap_nondecr o R s' tau' now TN) as MON.
+  cbn [lim_step snd] in D. rewrite K in D. unfold lim_bucket_of in D.
+  rewrite (final_lookup o k h [] nodup_nil) in D. cbn [lim_lookup] in D. fold s' in D.
+  fold (the_bucket o s' now) in D.
+  unfold allow_bucket, lim_margin in D. rewrite (the_bucket_adv o s' now Wn) in D.
+  destruct ((n <=? o_burst o) && (0 <? cap o s' now - n * SCALE + o_limit o)) eqn:X; cbn [fst] in D; [discriminate|].
+  apply andb_false_iff in X. destruct X as [X|X]; unfold SCALE in *; lia.
+Qed.
+
+(* the composed limiter: a refusal by the CLIENT limit means that the cost granted for the subnet so far plus this
+   cost exceeds the subnet's burst -- whatever the other subnets did and whatever the global bucket refused *)
+Lemma composed_refusal_own_budget c t0 h now a n tlow :
+  0 < lc_limit c -> lim_sorted (rl_events h) = true ->
+  (forall e, In e h -> tlow <= fst (fst e) <= now /\ 0 <= snd e) -> tlow <= now -> 0 <= n ->
+  snd (rl_allow (rl_final (rl_of_config c t0) h) now a n) = RlClient ->
+  let o := set_default (cfg_opts c) in
+  o_burst o < rl_granted o (cfg_subnet c a) tlow now h (rl_decisions (rl_of_config c t0) h) + n.
+Proof.
+  intros L S IN TL N D o.
+  assert (forall x, mask_addr o x = cfg_subnet c x) as M.
+  { intros x. apply config_client_mask. unfold cfg_client, init_client, cfg_opts. cbn [o_limit].
+    assert (0 <? lc_limit c = true) as -> by lia. reflexivity. }
+  pose proof (default_wf (cfg_opts c)) as W. cbn zeta in W. fold o in W.
+  rewrite (rl_of_config_shape c t0 L) in *. fold o in D |- *.
+  set (g := rl_global (rl_of_config c t0)) in *.
+  set (P := rl_passed h (glob_verdicts g h)).
+  assert (a <> LANone) as NA.
+  { intros ->. cbn in D. discriminate. }
+  assert (snd (lim_step o (lim_final o [] P) (EvAllow now a n)) = Some false) as DC.
+  { pose proof (rl_final_client o h g []) as C. fold P in C. unfold lim_table in *.
+    destruct (rl_final {| rl_global := g; rl_client := Some (o, []) |} h) as [g' cl'].
+    cbn [rl_client] in C. subst cl'.
+    unfold rl_allow in D. cbn [rl_global rl_client] in D.
+    destruct a as [x|x|]; [| |contradiction];
+      (destruct g' as [[lim b]|]; cbn [fst snd] in D;
+       [destruct (fst (allow_bucket lim lim b now n)); [|discriminate]|];
+       destruct (snd (lim_step o (lim_final o [] P) _)) as [[|]|] eqn:Q; try discriminate; first [reflexivity|exact Q]). }
+  rewrite rl_decompose, rl_granted_passed by (apply cfg_subnet_valid; exact NA). fold P.
+  apply (own_budget_refusal o (cfg_subnet c a) P now a n tlow); try lia; auto.
+  - now apply passed_sorted.
+  - apply passed_no_gc.
+  - apply Forall_forall. intros e I. destruct (passed_in _ _ _ I) as (x & y & z & -> & J).
+    cbn. apply (IN _ J).
+  - intros e I. destruct (passed_in _ _ _ I) as (x & y & z & -> & J). cbn. apply (IN _ J).
+Qed.
+
+(* ---- the wrong order: witness ---- *)
+(* global 5/s, client 1/s burst 5.  Five other /24s use up the global bucket at t = 0; the victim 10.0.9.1 tries five
+   times (all refused by the global limit); 1.1 s later (global bucket full again) the victim asks twice. *)
+Definition cfw_cfg : lim_config := mkLimCfg 5 1 5 24 48.
+Definition cfw_victim : lim_addr := LA4 167774465%N.          (* 10.0.9.1 *)
+Definition cfw_history : list rl_arrival :=
+  [(0, LA4 167772417%N, 1); (0, LA4 167772673%N, 1); (0, LA4 167772929%N, 1); (0, LA4 167773185%N, 1); (0, LA4 167773441%N, 1);
+   (0, cfw_victim, 1); (0, cfw_victim, 1); (0, cfw_victim, 1); (0, cfw_victim, 1); (0, cfw_victim, 1);
+   (1100000000, cfw_victim, 1); (1100000000, cfw_victim, 1)].
+Definition cfw_key : lim_addr := cfg_subnet cfw_cfg cfw_victim.
+
+Lemma cfw_witness :
+  lim_sorted (rl_events cfw_history) = true /\
+  rl_results_for cfw_cfg cfw_key cfw_history (rl_decisions (rl_of_config cfw_cfg 0) cfw_history)
+    = [RlGlobal; RlGlobal; RlGlobal; RlGlobal; RlGlobal; RlOk; RlOk] /\
+  rl_results_for cfw_cfg cfw_key cfw_history (rl_decisions_client_first (rl_of_config cfw_cfg 0) cfw_history)
+    = [RlGlobal; RlGlobal; RlGlobal; RlGlobal; RlGlobal; RlOk; RlClient] /\
+  rl_granted (set_default (cfg_opts cfw_cfg)) cfw_key 0 1100000000 cfw_history
+    (rl_decisions_client_first (rl_of_config cfw_cfg 0) cfw_history) = 1 /\
+  (* a global refusal charged the client: *)
+  snd (rl_allow_client_first (rl_final (rl_of_config cfw_cfg 0) (firstn 5 cfw_history)) 0 cfw_victim 1) = RlGlobal /\
+  lim_lookup cfw_key (rl_table (fst (rl_allow_client_first (rl_final (rl_of_config cfw_cfg 0) (firstn 5 cfw_history)) 0 cfw_victim 1)))
+    = Some (mkBucket (4 * SCALE) 0 0) /\
+  lim_lookup cfw_key (rl_table (rl_final (rl_of_config cfw_cfg 0) (firstn 5 cfw_history))) = None.
+Proof. vm_compute. repeat split; reflexivity. Qed.
+
+Lemma cfw_charge :
+  rl_client (fst (rl_allow_client_first (rl_final (rl_of_config cfw_cfg 0) (firstn 5 cfw_history)) 0 cfw_victim 1))
+  <> rl_client (rl_final (rl_of_config cfw_cfg 0) (firstn 5 cfw_history)).
+Proof. vm_compute. intros H. discriminate H. Qed.
